@@ -35,7 +35,11 @@
 (*         position into the seek field as the code does (F16a) and TLC    *)
 (*         refutes Apply(old, ChunkedB(old, new)) = new.                   *)
 (***************************************************************************)
-EXTENDS Integers, Sequences
+EXTENDS Integers, Sequences, TLC
+
+\* Now(v) = v.  TLC passes operator arguments unevaluated; in a recursive operator that leaves a chain of pending
+\* arguments which is re-evaluated at every level (quadratic).  TLCEval makes TLC evaluate the argument once.
+Now(v) == TLCEval(v)
 
 \* ---- results -------------------------------------------------------------
 Fail      == [ok |-> FALSE, out |-> <<>>]
@@ -68,7 +72,7 @@ CMin(a, b) == IF a < b THEN a ELSE b
 RECURSIVE Travel(_, _, _)
 Travel(ctrl, k, acc) ==
   IF k > Len(ctrl) \/ acc >= 536870912 THEN acc
-  ELSE Travel(ctrl, k + 1, acc + Abs(ctrl[k][1]) + Abs(ctrl[k][3]))
+  ELSE Travel(ctrl, Now(k + 1), Now(acc + Abs(ctrl[k][1]) + Abs(ctrl[k][3])))
 Decidable(ctrl) ==
   /\ \A k \in 1..Len(ctrl) : Abs(ctrl[k][1]) < 16777216 /\ Abs(ctrl[k][2]) < 16777216 /\ Abs(ctrl[k][3]) < 16777216
   /\ Travel(ctrl, 1, 0) < 536870912
@@ -94,7 +98,8 @@ Entry(old, P, s, c) ==
                 out |-> o2, op |-> s.op + x + z, dp |-> s.dp + x, ep |-> s.ep + y]
 
 RECURSIVE RunFrom(_, _, _, _)
-RunFrom(old, P, s, k) == IF k > Len(P.ctrl) \/ s.st # "run" THEN s ELSE RunFrom(old, P, Entry(old, P, s, P.ctrl[k]), k + 1)
+RunFrom(old, P, s, k) ==
+  IF k > Len(P.ctrl) \/ s.st # "run" THEN s ELSE RunFrom(old, P, Now(Entry(old, P, s, P.ctrl[k])), Now(k + 1))
 
 Apply(old, P) ==
   LET s == RunFrom(old, P, Start(P), 1)
@@ -108,7 +113,7 @@ LenFrom(ctrl, dlen, elen, size, k, np, used) ==      \* used = <<diff consumed, 
   ELSE LET x == ctrl[k][1]
            y == ctrl[k][2]
        IN IF x < 0 \/ y < 0 \/ np + x + y > size \/ used[1] + x > dlen \/ used[2] + y > elen THEN FALSE
-          ELSE LenFrom(ctrl, dlen, elen, size, k + 1, np + x + y, <<used[1] + x, used[2] + y>>)
+          ELSE LenFrom(ctrl, dlen, elen, size, Now(k + 1), Now(np + x + y), Now(<<used[1] + x, used[2] + y>>))
 ApplyLen(ctrl, dlen, elen, size) == LenFrom(ctrl, dlen, elen, size, 1, 0, <<0, 0>>)
 
 \* ---- the patcher as a state machine (part 2) ------------------------------
@@ -151,7 +156,7 @@ SimpleB(new) == Patch(<<<<0, Len(new), 0>>>>, <<>>, new, Len(new))
 
 RECURSIVE MatchLen(_, _, _, _, _)
 MatchLen(old, new, op, np, max) ==        \* find_matching_chunk: equal bytes from (op, np), at most max
-  IF max = 0 \/ old[op + 1] # new[np + 1] THEN 0 ELSE 1 + MatchLen(old, new, op + 1, np + 1, max - 1)
+  IF max = 0 \/ old[op + 1] # new[np + 1] THEN 0 ELSE 1 + MatchLen(old, new, Now(op + 1), Now(np + 1), Now(max - 1))
 
 \* build_chunked_patch: forward-only matching.  maxBlock = max_diff_block_size, minMatch = 4 and extraChunk = 256
 \* in the code.  absSeek = TRUE: the code as it is (extra entries carry the absolute old position as their seek).
@@ -161,11 +166,11 @@ ChunkedFrom(old, new, cfg, op, np, ctrl, diff, extra) ==
   ELSE LET lim == CMin(cfg.maxBlock, CMin(IF Len(old) > op THEN Len(old) - op ELSE 0, Len(new) - np))
            n   == MatchLen(old, new, op, np, lim)
        IN IF n >= cfg.minMatch
-          THEN ChunkedFrom(old, new, cfg, op + n, np + n, Append(ctrl, <<n, 0, 0>>),
-                           diff \o [i \in 1..n |-> (new[np + i] - old[op + i] + 256) % 256], extra)
+          THEN ChunkedFrom(old, new, cfg, Now(op + n), Now(np + n), Now(Append(ctrl, <<n, 0, 0>>)),
+                           Now(diff \o [i \in 1..n |-> (new[np + i] - old[op + i] + 256) % 256]), extra)
           ELSE LET e == CMin(Len(new) - np, cfg.extraChunk) IN
-               ChunkedFrom(old, new, cfg, op, np + e, Append(ctrl, <<0, e, IF cfg.absSeek THEN op ELSE 0>>),
-                           diff, extra \o Sub(new, np + 1, e))
+               ChunkedFrom(old, new, cfg, op, Now(np + e), Now(Append(ctrl, <<0, e, IF cfg.absSeek THEN op ELSE 0>>)),
+                           diff, Now(extra \o Sub(new, np + 1, e)))
 ChunkedB(old, new, cfg) == ChunkedFrom(old, new, cfg, 0, 0, <<>>, <<>>, <<>>)
 \* every builder refuses (returns Err) when it has no control entry to write: ControlBlock::with_entries
 Refuses(P) == P.ctrl = <<>>
@@ -178,7 +183,7 @@ AbsShapeFrom(ctrl, k, consumed) ==
   ELSE LET c == ctrl[k] IN
        /\ \/ c[1] > 0 /\ c[2] = 0 /\ c[3] = 0
           \/ c[1] = 0 /\ c[2] > 0 /\ c[3] = consumed
-       /\ AbsShapeFrom(ctrl, k + 1, consumed + c[1])
+       /\ AbsShapeFrom(ctrl, Now(k + 1), Now(consumed + c[1]))
 AbsSeekShape(ctrl) == AbsShapeFrom(ctrl, 1, 0) /\ \E k \in 1..Len(ctrl) : ctrl[k][3] # 0
 ZeroSeeks(ctrl) == [k \in 1..Len(ctrl) |-> <<ctrl[k][1], ctrl[k][2], 0>>]
 =============================================================================
